@@ -19,6 +19,7 @@ Sequence lines (second generation, one seized position):
   dutch.bid     who amt debtTwa            <ok|err|validate|panic> <rec> <balances> <misc>
   dutch.tick    now twaC actC twaD actD lbBefore lbAfter  <ok|panic> <rec> <balances> <misc>
   dutch.tickesm (same fields)   a block while the emergency-shutdown status of the auction's app is on
+  dutch.bidx    who denom amt              <outcome> <rec> <balances> <misc>      a market bid in a foreign denomination
   dutch.limit   who premium amt            <outcome> <rec> <balances> <misc>
   dutch.reserve who amt                    <outcome> <rec> <balances> <misc>
 rec      := `closed` | `coll=..;debt=..;bonus=..;price=..;init=..;orc=..;ord=..;start=..;end=..`
@@ -283,7 +284,8 @@ def finish (st : St) (seq : String) (outcomeModelOk : Bool) (outcome : String) (
   let esmOutNow : Int :=
     if esmTick ∧ prev.auc.isSome ∧ o.auc.isSome then ((balOf o "collector").2 - (balOf prev "collector").2) + (prev.supply - o.supply) else 0
   let esmOutReal := st.esmOutReal + esmOutNow
-  let mEsm := mon seq "esm_payout_le_proceeds" (decide (esmOutReal ≤ realPaid - overReal))
+  -- reported on the line on which `TriggerEsm` pays (again), not on every later line of the sequence
+  let mEsm := if esmOutNow ≠ 0 then mon seq "esm_payout_le_proceeds" (decide (esmOutReal ≤ realPaid - overReal)) else []
   let sfxC := if st.d7 then "_after_d7" else if esmOutReal ≠ 0 then "_after_esm_trigger" else ""
   let m1 := mon seq ("pay_le_target" ++ sfx) (decide (realPaid ≤ st.e.target))
   let m2 := mon seq ("receive_le_collateral" ++ sfx) (decide (realRecv ≤ st.e.coll0))
@@ -759,6 +761,14 @@ def handle (st : St) (seq : String) (f : List String) : St × List String :=
         let okRec := decide (a.coll = e.coll0) && decide (a.debt = e.target) && decide (a.bonus = e.bonus0) && decide (a.end_ = a.start + e.T)
         (st', mon seq "start_price" okStart ++ mon seq "start_record" okRec)
     | _, _ => (st, [s!"BAD\t{seq}\tbegin"])
+  | ["dutch.bidx", _who, _denom, _amt, o, r, b, m] =>
+    -- MsgPlaceMarketBid in a denomination that is not the auction's debt denomination (bid.go:24-26): must be refused, nothing moves
+    match parseObs r b m with
+    | some obs =>
+      let d := if o = "ok" then [s!"DIFF\t{seq}\ta bid in a foreign denomination was accepted"] else []
+      let (st2, outs) := finish st seq false o obs false [] (mon seq "bid_wrong_denom_refused" (o != "ok"))
+      (st2, d ++ outs)
+    | none => (st, [s!"BAD\t{seq}\tbidx"])
   | ["dutch.bid", who, amt, dt, o, r, b, m] =>
     match bidderNo who, parseInt? amt, parseInt? dt, parseObs r b m with
     | some w, some amt, some dt, some obs =>
